@@ -54,6 +54,12 @@ CallEnd(o) == /\ phase = "call" /\ phase' = "idle"
               /\ (J("r") => Elems(got) = 0..(cur.n - 1) /\ Len(got) = cur.n)
               /\ UNCHANGED <<judge, cur, got, ncalls, ws, fault>> /\ Ret(o)
 
+\* the consumer stopped early and closed the generator after o.got results (growth beyond the listed properties, which speak
+\* of fully consumed calls): what it received so far was judged by Yield; nothing of this call may reach a later call
+Abandon(o) == /\ phase = "call" /\ phase' = "idle"
+              /\ (J("r") => o.got = Len(got) /\ o.c = cur.c)
+              /\ UNCHANGED <<judge, cur, got, ncalls, ws, fault>> /\ Ret(o)
+
 \* the execution stopped with the consumer (or the exit of the context) blocked for ever
 Hang(o) == /\ phase \in {"idle", "call"} /\ phase' = "hung"
            /\ (J("t") => fault = 1)
@@ -93,6 +99,7 @@ Apply(o) ==
     \/ o.op = "call_begin" /\ CallBegin(o)
     \/ o.op = "yield" /\ Yield(o)
     \/ o.op = "call_end" /\ CallEnd(o)
+    \/ o.op = "abandon" /\ Abandon(o)
     \/ o.op = "hang" /\ Hang(o)
     \/ o.op = "fault" /\ Fault(o)
     \/ o.op = "wbegin" /\ WBegin(o)
@@ -109,7 +116,7 @@ Next ==
     \/ \E r, t, l \in {0, 1} : Apply([op |-> "cfg", r |-> r, t |-> t, l |-> l])
     \/ \E n \in 0..MaxN, ch \in 1..2, od \in {0, 1} : ncalls < 2 /\ Apply([op |-> "call_begin", c |-> ncalls + 1, n |-> n, chunk |-> ch, ord |-> od])
     \/ \E c \in 0..2, i \in 0..MaxN : Len(got) <= MaxN /\ Apply([op |-> "yield", c |-> c, i |-> i])
-    \/ Apply([op |-> "call_end"]) \/ Apply([op |-> "hang"]) \/ Apply([op |-> "fault"])
+    \/ Apply([op |-> "call_end"]) \/ Apply([op |-> "hang"]) \/ Apply([op |-> "abandon", c |-> cur.c, got |-> Len(got)]) \/ Apply([op |-> "fault"])
     \/ \E w \in 1..MaxWorkers : \/ Apply([op |-> "wbegin", w |-> w, q |-> 1]) \/ Apply([op |-> "wready", w |-> w])
                                 \/ Apply([op |-> "wend", w |-> w])
                                 \/ \E i \in 0..MaxN : Apply([op |-> "witem", w |-> w, c |-> 1, i |-> i, chunk |-> 1])
